@@ -129,16 +129,24 @@ impl<'a> LogServer<'a> {
     }
     #[instrument]
     async fn process(socket: tokio::net::TcpStream) -> Result<(), ServerError> {
-        let br = tokio::io::BufReader::new(socket);
-        let mut lines = br.lines();
+        // Relay the bytes of each line unchanged; decoding lines as UTF-8
+        // text would strip a carriage return before the newline and fail on
+        // binary output.
+        let mut br = tokio::io::BufReader::new(socket);
+        let mut line = Vec::new();
         let mut stdout = tokio::io::stdout();
-        while let Some(line) = lines.next_line().await.map_err(ServerError::LogClient)? {
+        while br
+            .read_until(b'\n', &mut line)
+            .await
+            .map_err(ServerError::LogClient)?
+            > 0
+        {
             stdout
-                .write_all(line.as_bytes())
+                .write_all(&line)
                 .await
                 .map_err(ServerError::LogClient)?;
-            _ = stdout.write(b"\n").await.map_err(ServerError::LogClient)?;
             stdout.flush().await.map_err(ServerError::LogClient)?;
+            line.clear();
         }
         Ok(())
     }
